@@ -40,7 +40,12 @@ CLAUSES = ["C17 Parse accepts a non-boolean CEL rule or refuses a valid probe li
            "C17 stale status.observedGeneration passes",
            "C17 stale condition observedGeneration passes",
            "C17 fieldsEqual passes on a missing field",
-           "C17 probing changes the object"]
+           "C17 probing changes the object",
+           "C17 a selected failing probe does not make the object fail (success flag differs from the reference)",
+           "C17 number of reported failures differs from the number of failing probes"]
+PASS_CLAUSES = ["an object is recorded as failed although it passes, or passes although a probe that selects it fails",
+                "the number of recorded failures differs from the number of failing objects",
+                "the result is zero (Available) although an object fails, or not zero although all pass"]
 # former known finding (fixed in /repo by 9b2e4f3); a recurrence is reported under the same identity
 SHADOWED = "C17 stale condition entry shadowed by an earlier entry of the same type passes"
 
@@ -226,7 +231,10 @@ def gen_leaf(r, o, cov):
     a = r.choice(FE_PATHS)
     fe = {"fieldA": a, "fieldB": a if r.random() < 0.15 else r.choice(FE_PATHS[:9] if r.random() < 0.6 else FE_PATHS)}
     ri = r.choices(range(len(RULES)), weights=RULE_W)[0]
-    cel = {"rule": RULES[ri], "message": "cel-msg-%d" % ri}
+    # the message is user-controlled: required by the API, but may be empty, blank, or shared by several probes
+    msg = wchoice(r, [("cel-msg-%d" % ri, 50), ("", 22), (" ", 8), ("dup", 12), (" \t ", 4), ("cel-msg-0", 4)])
+    cov["cel-message:" + ("empty" if msg == "" else "blank" if not msg.strip() else "dup" if msg == "dup" else "text")] += 1
+    cel = {"rule": RULES[ri], "message": msg}
     if k == "condition":
         return {"condition": cond}
     if k == "fieldsEqual":
@@ -265,8 +273,8 @@ def fe(a, b):
     return {"fieldsEqual": {"fieldA": a, "fieldB": b}}
 
 
-def cel(i):
-    return {"cel": {"rule": RULES[i], "message": "cel-msg-%d" % i}}
+def cel(i, msg=None):
+    return {"cel": {"rule": RULES[i], "message": "cel-msg-%d" % i if msg is None else msg}}
 
 
 def osp(probes, kind=("apps", "Deployment"), selector=None):
@@ -325,6 +333,17 @@ def fixed():
          "object": dep(status={"a": 1})},
         {"probes": [osp([cond(t="", s="")])], "object": dep(status={"conditions": [{}, {"type": "", "status": ""}]})},
         {"probes": [osp([cond()])], "object": dep(gen="2", status={"observedGeneration": 1, "conditions": [avail(0)]})},
+        # a failing CEL probe whose message is empty / blank, alone, in a list, next to others, and duplicates
+        {"probes": [osp([cel(1, "")])], "object": dep()},
+        {"probes": [osp([cel(1, "")], kind=None)], "object": dep()},
+        {"probes": [osp([cel(1, " ")])], "object": dep()},
+        {"probes": [osp([cel(0, ""), cel(1, "")])], "object": dep()},
+        {"probes": [osp([cel(1, ""), cel(1, "")]), osp([cel(1, "")], kind=None)], "object": dep()},
+        {"probes": [osp([cond(), cel(1, "")])], "object": dep(status={"conditions": [avail()]})},
+        {"probes": [osp([cond(), cel(1, "")])], "object": dep(status={"conditions": [avail(st="False")]})},
+        {"probes": [osp([cel(1, "dup"), cel(3, "dup"), cel(5, "dup")])], "object": dep(status={"a": 1})},
+        {"probes": [osp([cel(5, "")])], "object": dep(status={})},
+        {"probes": [osp([cel(1, "")], kind=("", "ConfigMap"))], "object": dep()},
     ]
     return out
 
@@ -355,7 +374,7 @@ def sweep():
 def gen(seed, tier, cov):
     r = vlib.rng(seed, "C17")
     out = fixed() + sweep()
-    n = 3000 if tier == "quick" else 60000
+    n = 2600 if tier == "quick" else 52000
     while len(out) < n:
         o, gk = gen_object(r, cov)
         k = wchoice(r, [(0, 3), (1, 30), (2, 30), (3, 22), (4, 15)])
@@ -417,7 +436,7 @@ def term(sc, obs):
         ob = "(ORun %s %s %s %s)" % (cB(obs["success"]),
                                      cL([cP(cN(f["index"]), REASONS[f["reason"]]) for f in obs["failures"]]),
                                      cL([c_result(p) for p in obs["per"]]), cB(obs["pure"]))
-    return cP(cL([c_osp(q) for q in sc["probes"]]), cJ(sc["object"]), tbl, ob)
+    return "(%s : case)" % cP(cL([c_osp(q) for q in sc["probes"]]), cJ(sc["object"]), tbl, ob)
 
 
 # ------------------------------------------------------------------ the check
@@ -458,14 +477,32 @@ def check(run, tier, seed, replay=None):
         "strings are ASCII; float64 values are opaque (equal iff same value, never equal to an int64)",
         "'declares an observedGeneration' means a JSON integer; a float/string/null observedGeneration is ignored by "
         "NestedInt64 (observation, not counted as a violation)",
-        "purity is checked by reflect.DeepEqual of the probed deep copy against the original after every Probe call"]
+        "purity is checked by reflect.DeepEqual of the probed deep copy against the original after every Probe call; "
+        "independence of earlier calls by driving one long-lived real ObjectSet controller through histories (the API server, "
+        "the dynamic cache and the garbage collector are the harness' in-memory store: orphan deletion strips the owner "
+        "references and removes the ObjectSet)",
+        "phase / history stages: failures are judged on the success flag, the number of FailedProbes entries and the zero-ness "
+        "of the ProbingResult (Available condition), never on message texts; about objects a pass does not find (recorded as "
+        "'not found') the property says nothing, they are part of the model correspondence only"]
     vlib.std_proof_stage(run, "C17")
     ok, blog = vlib.build_harness()
     if not ok:
         run.violation("corr:harness-build", {"correspondence": "harness no longer builds against the tree", "log": blog[-4000:]}, False)
         return
     cov = collections.Counter()
-    scs = [json.load(open(replay))["replay"]["scenario"]] if replay else gen(seed, tier, cov)
+    rp = json.load(open(replay))["replay"]["scenario"] if replay else None
+    if rp is None or "object" in rp:
+        stage_probe(run, tier, seed, cov, rp)
+    if rp is None or "objects" in rp:
+        stage_phase(run, tier, seed, cov, rp)
+    if rp is None or "steps" in rp:
+        stage_history(run, tier, seed, cov, rp)
+    run.cov["generator_shapes"] = dict(sorted(cov.items()))
+
+
+def stage_probe(run, tier, seed, cov, rp):
+    """Parse + Probe on (probe list, object) pairs"""
+    scs = [rp] if rp else gen(seed, tier, cov)
     outs = vlib.run_harness("probe", scs, par=8)
     terms, idx = [], []
     dist = collections.Counter()
@@ -515,10 +552,10 @@ def check(run, tier, seed, replay=None):
             dist["cel:" + c["class"] + "/" + c["outcome"]] += 1
         if has_duplicate_types(sc["object"]):
             dist["duplicate-condition-types"] += 1
-    res, logs = vlib.judge_cases("C17", IMPORTS, "judge_detail", terms, 10)
+    res, logs = vlib.judge_cases("C17", IMPORTS, "judge_detail", terms, 12, shard=220 if len(terms) < 5000 else 400)
     for l in logs:
         run.violation("corr:C17/coq-eval", {"correspondence": "coq evaluation failed", "log": l}, False)
-    run.cov["evaluations"] = len(terms)
+    run.cov["evaluations"] += len(terms)
     for i, r in zip(idx, res):
         if r is None:
             continue
@@ -544,10 +581,304 @@ def check(run, tier, seed, replay=None):
                        "x inner list (729 cases) + random: 0-4 ObjectSetProbes (kind selector matching/other/none, optional "
                        "label selector with matchLabels/matchExpressions), 0-3 probes each (condition, fieldsEqual, CEL from a "
                        "fixed rule set, empty, several set) against objects with malformed apiVersion/metadata/labels/status/"
-                       "conditions shapes; non-trivial = some ObjectSetProbe has a probe; distinct = per-probe (ok, reasons) "
-                       "vector or Parse error (index, class)")
+                       "conditions shapes; CEL messages are text / empty / blank / shared by several probes; non-trivial = some "
+                       "ObjectSetProbe has a probe; distinct = per-probe (ok, reasons) vector or Parse error (index, class). "
+                       "Phase stage: the real PhaseReconciler.ReconcilePhase (active and paused owner, 1-3 existing objects, some not "
+                       "in the cache) with the prober of the real Parse; distinct = (paused, per-object (recorded, missing), count, "
+                       "zero). History stage: ONE real ObjectSet controller over create / reconcile / delete (normal, orphan) / "
+                       "archive / re-create under the same name and two interleaved ObjectSets; distinct = vector of (create step, "
+                       "verdict, count) per pass")
     run.cov["samples"] = [{"scenario": scs[i], "impl": outs[i].get("obs")} for i in idx[5:8]]
     run.cov["input_distribution"] = dict(sorted(dist.items()))
-    run.cov["generator_shapes"] = dict(sorted(cov.items()))
     done = dist["outcome:pass"] + dist["outcome:fail"]
     run.cov["pass_ratio"] = round(dist["outcome:pass"] / done, 3) if done else None
+
+
+# ------------------------------------------------------------------ the callers: phase reconciler, history
+
+PHASE_KINDS = [("verif.example", "Widget", "verif.example/v1"), ("", "ConfigMap", "v1")]   # registered in the harness' API server
+
+
+def parseable(probes):
+    """Parse accepts the list (used where a Parse error would only end the scenario)"""
+    for q in probes:
+        for p in q["probes"]:
+            if effective(p) == "cel" and RULE_CLASS[RULES.index(p["cel"]["rule"])] != "ok":
+                return False
+        ls = q["selector"].get("selector")
+        for e in (ls or {}).get("matchExpressions") or []:
+            vals = e.get("values") or []
+            if e["operator"] not in LS_OPS or (e["operator"] in ("In", "NotIn")) != bool(vals):
+                return False
+    return True
+
+
+def gen_phase_object(r, cov, i):
+    """an object that exists on the cluster: proper identity, everything else as malformed as gen_object makes it"""
+    o, _ = gen_object(r, cov)
+    group, kind, av = r.choice(PHASE_KINDS)
+    o["apiVersion"], o["kind"] = av, kind
+    m = o.get("metadata") if isinstance(o.get("metadata"), dict) else {}
+    m["name"], m["namespace"] = "m%d" % i, "ns1"
+    if isinstance(m.get("generation"), float) or isinstance(m.get("generation"), str):
+        m["generation"] = 2
+    o["metadata"] = m
+    return o, (group, kind)
+
+
+def gen_probes_for(r, objs, cov, parse_ok):
+    while True:
+        k = wchoice(r, [(0, 3), (1, 32), (2, 35), (3, 20), (4, 10)])
+        o, gk = r.choice(objs)
+        probes = [gen_probe(r, o, gk, cov) for _ in range(k)]
+        if not parse_ok or parseable(probes):
+            return probes
+
+
+def widget(i=0, gen=1, status=None, labels=None, kind="Widget"):
+    o = {"apiVersion": "verif.example/v1" if kind == "Widget" else "v1", "kind": kind,
+         "metadata": {"name": "m%d" % i, "namespace": "ns1", "generation": gen}, "spec": {"v": "1"}}
+    if labels is not None:
+        o["metadata"]["labels"] = labels
+    if status is not None:
+        o["status"] = status
+    return o
+
+
+WK = ("verif.example", "Widget")
+AVAIL = {"type": "Available", "status": "True"}
+
+
+def gen_phase(seed, tier, cov):
+    r = vlib.rng(seed, "C17/phase")
+    ok_w = widget(0, status={"observedGeneration": 1, "a": 1, "conditions": [AVAIL]})
+    out = []
+    for paused in (False, True):
+        out += [
+            # the only failing probe has an empty / blank message
+            {"probes": [osp([cel(1, "")], kind=WK)], "objects": [ok_w], "paused": paused},
+            {"probes": [osp([cel(1, " ")], kind=WK)], "objects": [ok_w], "paused": paused},
+            {"probes": [osp([cond(), cel(1, "")], kind=WK)], "objects": [ok_w], "paused": paused},
+            {"probes": [osp([cond()], kind=WK), osp([cel(1, "")], kind=None)], "objects": [ok_w, widget(1, kind="ConfigMap")],
+             "paused": paused},
+            {"probes": [osp([cel(1, ""), cel(1, "")], kind=WK)], "objects": [ok_w, widget(1, status={"conditions": [AVAIL]})],
+             "paused": paused},
+            {"probes": [osp([cond("Ready")], kind=WK)], "objects": [ok_w], "paused": paused},
+            {"probes": [osp([cond()], kind=WK)], "objects": [ok_w], "paused": paused},
+            {"probes": [], "objects": [ok_w], "paused": paused},
+            {"probes": [osp([], kind=WK)], "objects": [widget(0, gen=2, status={"observedGeneration": 1})], "paused": paused},
+        ]
+    out.append({"probes": [osp([cond()], kind=WK)], "objects": [ok_w, widget(1)], "paused": False, "absent": [0, 1]})
+    n = 500 if tier == "quick" else 6000
+    out.append({"probes": [osp([cond()], kind=WK)], "objects": [ok_w, widget(1)], "paused": True, "uncached": [0]})
+    out.append({"probes": [], "objects": [ok_w], "paused": True, "uncached": [0]})
+    while len(out) < n:
+        objs = [gen_phase_object(r, cov, i) for i in range(wchoice(r, [(1, 55), (2, 30), (3, 15)]))]
+        sc = {"probes": gen_probes_for(r, objs, cov, True), "objects": [o for o, _ in objs], "paused": r.random() < 0.35}
+        if sc["paused"]:
+            # a paused owner finds its objects through the cache label: labels have to be a proper string map for that
+            for o in sc["objects"]:
+                ls = o["metadata"].get("labels")
+                if "labels" in o["metadata"]:
+                    o["metadata"]["labels"] = {k: v for k, v in ls.items() if isinstance(v, str)} if isinstance(ls, dict) else {}
+            sc["uncached"] = [i for i in range(len(objs)) if r.random() < 0.08]
+        else:
+            # objects that do not exist yet are created by the pass (and have no status then)
+            sc["absent"] = [i for i in range(len(objs)) if r.random() < 0.06]
+        out.append(sc)
+    return out
+
+
+def untag(v):
+    if isinstance(v, dict):
+        if set(v) == {"$f"}:
+            return float(v["$f"])
+        return {k: untag(x) for k, x in v.items()}
+    if isinstance(v, list):
+        return [untag(x) for x in v]
+    return v
+
+
+def c_pass(probes, po):
+    items = []
+    for it in po["items"]:
+        tbl = cL([cP(cN(RULES.index(c["rule"])), cP(CEL_CLASS[c["class"]], CEL_OUT[c["outcome"]])) for c in it["cel"]])
+        items.append(cP(cO(None if it.get("missing") else cJ(untag(it["object"]))), tbl, cB(it["failed"])))
+    return "(%s : pass_obs)" % cP(cL([c_osp(q) for q in probes]), cL(items), cN(po["nfailed"]), cB(po["zero"]))
+
+
+def pass_problem(po):
+    if po.get("res") != "ok":
+        return "pass ended with an error: %s" % po.get("err")
+    for it in po["items"]:
+        if any(c["outcome"] == "unknown" or c["class"] != RULE_CLASS[RULES.index(c["rule"])] for c in it["cel"]):
+            return "unclassified CEL oracle result"
+    return None
+
+
+def stage_phase(run, tier, seed, cov, rp):
+    """the real PhaseReconciler.ReconcilePhase with the prober of the real Parse: recordingProbe"""
+    scs = [rp] if rp else gen_phase(seed, tier, cov)
+    outs = vlib.run_harness("probephase", scs, par=8)
+    terms, idx = [], []
+    dist = collections.Counter()
+    for i, (sc, o) in enumerate(zip(scs, outs)):
+        if "obs" not in o:
+            run.violation("corr:C17/probephase harness error", {"scenario": sc, "out": o}, False)
+            continue
+        po = o["obs"]
+        if po.get("parseErr"):
+            run.violation("corr:C17/probephase: Parse refuses a list the generator holds for valid",
+                          {"correspondence": "parseable()", "scenario": sc, "impl": po}, False)
+            continue
+        bad = pass_problem(po)
+        if bad:
+            run.violation("corr:C17/probephase " + bad, {"correspondence": bad, "scenario": sc, "impl": po}, False)
+            continue
+        terms.append(c_pass(sc["probes"], po))
+        idx.append(i)
+        dist["passes"] += 1
+        dist["paused" if sc["paused"] else "active"] += 1
+        dist["objects:%d" % len(sc["objects"])] += 1
+        dist["recorded-failed"] += po["nfailed"]
+        dist["zero" if po["zero"] else "non-zero"] += 1
+        dist["missing-objects"] += sum(1 for it in po["items"] if it.get("missing"))
+        dist["created-by-the-pass"] += len(sc.get("absent") or [])
+        for it in po["items"]:
+            if it["failed"] and it.get("entry", "x").endswith(": "):
+                dist["failed-with-empty-messages-only"] += 1
+    res, logs = vlib.judge_cases("C17", IMPORTS, "judge_pass", terms, 5, shard=45 if len(terms) < 1000 else 150, tag="phase")
+    for l in logs:
+        run.violation("corr:C17/coq-eval", {"correspondence": "coq evaluation failed (phase stage)", "log": l}, False)
+    run.cov["evaluations"] += len(terms)
+    for i, r in zip(idx, res):
+        if r is None:
+            continue
+        sc, po = scs[i], outs[i]["obs"]
+        run.classes.add(("phase", sc["paused"], tuple((it["failed"], bool(it.get("missing"))) for it in po["items"]),
+                         po["nfailed"], po["zero"]))
+        agree, mon, clauses = r[0], r[1], r[2:]
+        if not mon:
+            for k, okc in enumerate(clauses):
+                if not okc:
+                    run.violation("C17 phase reconciler: " + PASS_CLAUSES[k], {"scenario": sc, "impl": po}, True)
+        if not agree:
+            run.violation("corr:C17/phase reconciler model and implementation differ",
+                          {"correspondence": "C17Corr.agree_pass", "scenario": sc, "impl": po}, False)
+    run.cov["phase_stage"] = dict(sorted(dist.items()))
+    run.cov["samples"] = run.cov.get("samples", []) + [
+        {"stage": "phase", "scenario": scs[i], "impl": {k: v for k, v in outs[i]["obs"].items() if k != "items"}} for i in idx[:1]]
+
+
+def gen_history(seed, tier, cov):
+    r = vlib.rng(seed, "C17/history")
+    m0 = widget(0, status={"observedGeneration": 1, "a": 1, "conditions": [AVAIL]})
+    p_avail = [osp([cond()], kind=WK)]
+    p_ready = [osp([cond(), cond("Ready")], kind=WK)]
+    p_cel = [osp([cond(), cel(1, "")], kind=WK)]
+    p_none = []
+
+    def recreate(p1, p2, how, members=(m0,)):
+        steps = [{"op": "create", "name": "x", "probes": p1}, {"op": "reconcile", "name": "x"}]
+        steps.append({"op": "archive", "name": "x"} if how == "archive" else {"op": "delete", "name": "x", "orphan": how == "orphan"})
+        steps += [{"op": "create", "name": "x", "probes": p2}, {"op": "reconcile", "name": "x"}, {"op": "reconcile", "name": "x"}]
+        return {"members": list(members), "steps": steps}
+
+    out = []
+    for how in ("orphan", "normal", "archive"):
+        for p1, p2 in ((p_avail, p_ready), (p_ready, p_avail), (p_avail, p_cel), (p_none, p_ready), (p_ready, p_none)):
+            out.append(recreate(p1, p2, how))
+    # two ObjectSets with different probes, interleaved
+    out.append({"members": [m0], "steps": [
+        {"op": "create", "name": "x", "probes": p_avail}, {"op": "create", "name": "y", "probes": p_ready},
+        {"op": "reconcile", "name": "x"}, {"op": "reconcile", "name": "y"}, {"op": "reconcile", "name": "x"},
+        {"op": "delete", "name": "x", "orphan": True}, {"op": "create", "name": "x", "probes": p_cel},
+        {"op": "reconcile", "name": "y"}, {"op": "reconcile", "name": "x"}, {"op": "reconcile", "name": "y"}]})
+    n = 60 if tier == "quick" else 500
+    while len(out) < n:
+        objs = [gen_phase_object(r, cov, i) for i in range(wchoice(r, [(1, 60), (2, 40)]))]
+        pool = [gen_probes_for(r, objs, cov, True) for _ in range(3)] + [p_avail, p_ready]
+        live, steps = {}, []
+        for _ in range(r.randint(5, 11)):
+            name = r.choice(["x", "y"])
+            if name not in live:
+                steps.append({"op": "create", "name": name, "probes": r.choice(pool)})
+                live[name] = True
+                steps.append({"op": "reconcile", "name": name})
+                continue
+            op = wchoice(r, [("reconcile", 50), ("orphan", 25), ("delete", 15), ("archive", 10)])
+            if op == "reconcile":
+                steps.append({"op": "reconcile", "name": name})
+            else:
+                steps.append({"op": "archive", "name": name} if op == "archive" else
+                             {"op": "delete", "name": name, "orphan": op == "orphan"})
+                del live[name]
+        for name in sorted(live):
+            steps.append({"op": "reconcile", "name": name})
+        out.append({"members": [o for o, _ in objs], "steps": steps})
+    return out
+
+
+def stage_history(run, tier, seed, cov, rp):
+    """ONE long-lived real ObjectSet controller over create / reconcile / delete (orphan) / archive / re-create"""
+    scs = [rp] if rp else gen_history(seed, tier, cov)
+    outs = vlib.run_harness("probehistory", scs, par=8)
+    terms, idx = [], []
+    dist = collections.Counter()
+    for i, (sc, o) in enumerate(zip(scs, outs)):
+        if "obs" not in o or o["obs"].get("err"):
+            run.violation("corr:C17/probehistory harness error", {"scenario": sc, "out": o}, False)
+            continue
+        ho = o["obs"]
+        # which probes is each reconcile step about: the latest create of that name (tracked here, checked against the harness)
+        cur, expect = {}, {}
+        for k, st in enumerate(sc["steps"]):
+            if st["op"] == "create":
+                cur[st["name"]] = k
+            elif st["op"] == "reconcile":
+                expect[k] = cur[st["name"]]
+        bad = None
+        passes = []
+        for po in ho["passes"]:
+            if po.get("created") != expect.get(po.get("step")):
+                bad = "harness and check disagree about the ObjectSet a pass was for"
+            bad = bad or pass_problem(po)
+            passes.append(c_pass(sc["steps"][expect[po["step"]]]["probes"], po))
+        if len(ho["passes"]) != len(expect):
+            bad = bad or "number of observed passes differs from the number of reconcile steps"
+        if bad:
+            run.violation("corr:C17/probehistory " + bad, {"correspondence": bad, "scenario": sc, "impl": ho}, False)
+            continue
+        terms.append("(%s : list pass_obs)" % cL(passes))
+        idx.append(i)
+        dist["histories"] += 1
+        dist["passes"] += len(passes)
+        dist["re-created names"] += sum(1 for k, st in enumerate(sc["steps"]) if st["op"] == "create"
+                                        and any(s2["op"] == "create" and s2["name"] == st["name"] for s2 in sc["steps"][:k]))
+        for st in sc["steps"]:
+            dist["op:" + st["op"] + (":orphan" if st.get("orphan") else "")] += 1
+        dist["verdict:available"] += sum(1 for po in ho["passes"] if po["zero"])
+        dist["verdict:probe-failure"] += sum(1 for po in ho["passes"] if not po["zero"])
+    res, logs = vlib.judge_cases("C17", IMPORTS, "judge_history", terms, 5, shard=6 if len(terms) < 100 else 15, tag="history")
+    for l in logs:
+        run.violation("corr:C17/coq-eval", {"correspondence": "coq evaluation failed (history stage)", "log": l}, False)
+    run.cov["evaluations"] += len(terms)
+    for i, r in zip(idx, res):
+        if r is None:
+            continue
+        sc, ho = scs[i], outs[i]["obs"]
+        run.classes.add(("history", tuple((po["created"], po["zero"], po["nfailed"]) for po in ho["passes"])))
+        agree, mon, clauses = r[0], r[1], r[2:]
+        brief = {"passes": [{k: v for k, v in po.items() if k != "items"} for po in ho["passes"]], "trace": ho["trace"]}
+        if not mon:
+            for k, okc in enumerate(clauses):
+                if not okc:
+                    run.violation("C17 history (one controller instance): a pass is not judged by the probes of the ObjectSet it "
+                                  "reconciles: " + PASS_CLAUSES[k], {"scenario": sc, "impl": brief}, True)
+        if not agree:
+            run.violation("corr:C17/history model and implementation differ",
+                          {"correspondence": "C17Corr.judge_history", "scenario": sc, "impl": brief}, False)
+    run.cov["history_stage"] = dict(sorted(dist.items()))
+    run.cov["samples"] = run.cov.get("samples", []) + [
+        {"stage": "history", "steps": [(st["op"], st["name"]) for st in scs[i]["steps"]],
+         "verdicts": [(po["created"], po["condition"]) for po in outs[i]["obs"]["passes"]]} for i in idx[:1]]
